@@ -101,7 +101,11 @@ func corrupt(e *core.Env, tp *core.Tape, base *m.Address, allowEasing, allowHuge
 	p := presented{pa: base.PublicAddress, priv: base.PrivateKey}
 	p.pa.PublicKey = append(ed25519.PublicKey(nil), base.PublicKey...)
 	for {
-		switch tp.Intn(10) {
+		switch tp.Intn(11) {
+		case 10: // same 16 bytes, but a scoped address: not the digest, not inside fd00::/8
+			p.pa.IP = p.pa.IP.WithZone([]string{"x", "eth0", "1", "fd00"}[tp.Intn(4)])
+			p.what = "address carries an IPv6 zone"
+			e.Probe("zoned_address_presented")
 		case 0:
 			a := p.pa.IP.As16()
 			bit := tp.Intn(128)
